@@ -213,9 +213,15 @@ pub fn concurrent_attempts(input: &Value) -> Value {
 				None => continue,
 			};
 			tasks.push(json!({"task": i, "certificate": id, "account": cert.account_name, "endpoint": cert.endpoint_name}));
+			// `stagger_ms[i]`: attempt i starts that much later (renewals that come due at different
+			// times, or a retry after a pause)
+			let late = input["stagger_ms"][i].as_u64().unwrap_or(0);
 			futs.push(WithTask {
 				task: i,
 				fut: Box::pin(async move {
+					if late > 0 {
+						tokio::time::sleep(Duration::from_millis(late)).await;
+					}
 					let r = request_certificate(cert, acc, ept).await;
 					(i, r.map_err(|e| e.message))
 				}),
